@@ -55,6 +55,7 @@ def main(argv=None):
     ap.add_argument("-j", type=int, default=int(os.environ.get("VERIF_JOBS", "16")))
     ap.add_argument("--no-evidence", action="store_true")
     ap.add_argument("--replay", default=None)
+    ap.add_argument("--timeout", type=int, default=None, help="override every job's timeout (probing)")
     a = ap.parse_args(argv)
     if a.replay:
         return replay_mod.rerun(a.replay)
@@ -72,7 +73,10 @@ def check_prop(prop, tier, seed, a):
     t0 = time.time()
     jobs = registry.jobs_for(prop, tier, seed)
     if a.job:
-        jobs = [j for j in jobs if a.job in j.name]
+        jobs = [j for j in jobs if re.search(a.job, j.name)]
+    if a.timeout:
+        for j in jobs:
+            j.timeout = a.timeout
     if a.list:
         for j in jobs:
             print(j.name, j.shape, j.solver, ",".join(j.props))
